@@ -34,6 +34,9 @@
 struct Ledger {
     unsigned char* base[LG_REGIONS];
     uint64_t bytes[LG_REGIONS];
+    uint64_t off[LG_REGIONS];  // where the first element of region r starts, how far elements are apart, how many fit:
+    uint32_t esz[LG_REGIONS];  // learned from the first census that expects an element (0: not yet known; such a region
+    uint32_t nslot[LG_REGIONS]; // has never held an element, the census counts nothing in it)
     uint32_t nctor, ndtor; // every construction / destruction, wherever the object lives
     uint32_t ncopy, nmove, ncassign, nmassign;
     uint32_t bad; // number of illegal transitions seen (each one also fails its own vf_assert)
@@ -148,9 +151,9 @@ static inline void split(uint64_t v, F f)
 template <unsigned MAX, typename F>
 static inline void split_q(uint64_t v, F f) { split<MAX, false>(v, f); }
 // ---- driver side: region registration and the censuses taken between kernel calls
-static inline uint32_t lg_word(unsigned r, unsigned i)
+static inline uint32_t lg_word_at(unsigned r, uint64_t byteoff)
 {
-    unsigned char const* b = vf_led.base[r] + uint64_t(i) * 4;
+    unsigned char const* b = vf_led.base[r] + byteoff;
     return uint32_t(b[0]) | uint32_t(b[1]) << 8 | uint32_t(b[2]) << 16 | uint32_t(b[3]) << 24;
 }
 // block [base, base+bytes) becomes region r; its raw (symbolic) bytes are assumed to contain no live mark
@@ -159,28 +162,32 @@ extern "C" __attribute__((noinline)) void lg_register(unsigned r, void* base, ui
     vf_assert(bytes <= uint64_t(LG_SLOTS) * 4 && bytes % 4 == 0, "harness: the region fits the census (LG_SLOTS words)");
     vf_led.base[r] = (unsigned char*)base;
     vf_led.bytes[r] = bytes;
+    vf_led.off[r] = 0; vf_led.esz[r] = 0; vf_led.nslot[r] = 0;
     for (unsigned i = 0; i < LG_SLOTS; i++)
-        if (uint64_t(i) * 4 < bytes) vf_assume(!lg_is_mark(lg_word(r, i)));
+        if (uint64_t(i) * 4 < bytes) vf_assume(!lg_is_mark(lg_word_at(r, uint64_t(i) * 4)));
 }
-// region r holds exactly n live objects of `tag`, esz bytes apart, the first at byte offset off; no other word is a live mark
+// region r holds exactly n live objects of `tag`, esz bytes apart, the first at byte offset off, and no live object in any
+// other element slot (the census looks at the state word of every slot an element of this owner can occupy; an object
+// alive anywhere else shows up in lg_quiet's count)
 extern "C" __attribute__((noinline)) void lg_expect(unsigned r, uint64_t off, unsigned n, unsigned esz, unsigned tag)
 {
-    uint8_t want[LG_SLOTS];
-    for (unsigned i = 0; i < LG_SLOTS; i++) want[i] = 0;
-    for (unsigned k = 0; k < n; k++) want[(off + uint64_t(k) * esz + 4) >> 2] = 1; // the state word follows the payload
+    if (n > 0) {
+        if (vf_led.esz[r] == 0) { vf_led.off[r] = off; vf_led.esz[r] = esz; vf_led.nslot[r] = uint32_t((vf_led.bytes[r] - off) / esz); }
+        vf_assert(vf_led.off[r] == off && vf_led.esz[r] == esz && n <= vf_led.nslot[r], "harness: the element slots of a region do not move");
+    }
     for (unsigned i = 0; i < LG_SLOTS; i++) {
-        if (uint64_t(i) * 4 >= vf_led.bytes[r]) break;
-        uint32_t w = lg_word(r, i);
-        if (want[i]) vf_assert(w == LG_LIVE + tag || w == LG_MOVED + tag, "C03: an element of the owner is not a live object (never constructed, or destroyed while still owned)");
+        if (i >= vf_led.nslot[r]) break;
+        uint32_t w = lg_word_at(r, vf_led.off[r] + uint64_t(i) * vf_led.esz[r] + 4); // the state word follows the payload
+        if (i < n) vf_assert(w == LG_LIVE + tag || w == LG_MOVED + tag, "C03: an element of the owner is not a live object (never constructed, or destroyed while still owned)");
         else vf_assert(!lg_is_mark(w), "C03: a live object is left outside the owner's elements (leak: constructed but never destroyed)");
     }
 }
-extern "C" __attribute__((noinline)) unsigned lg_marks() // live marks in all regions
+extern "C" __attribute__((noinline)) unsigned lg_marks() // live objects in the element slots of all regions
 {
     unsigned c = 0;
     for (unsigned r = 0; r < LG_REGIONS; r++)
         for (unsigned i = 0; i < LG_SLOTS; i++)
-            if (vf_led.base[r] != nullptr && uint64_t(i) * 4 < vf_led.bytes[r] && lg_is_mark(lg_word(r, i))) c++;
+            if (i < vf_led.nslot[r] && lg_is_mark(lg_word_at(r, vf_led.off[r] + uint64_t(i) * vf_led.esz[r] + 4))) c++;
     return c;
 }
 static inline void lg_quiet() // between kernel calls
